@@ -120,9 +120,10 @@ Proof. exact line_counter. Qed.
 (* a source consisting only of such items: the tokens are LineNo / Comment only, the log is what the unknown characters
    add one after the other (items_ls), each with the line it stands on *)
 Theorem C19_only_layout_and_errors : forall (its : list litem) ls ln, forallb litem_ok its = true ->
+  lex_pre (print_items its) = false ->     (* no FUNCTION / Function met by lex_preprocess (it scans `#` comments too): see C18_loop_is_lex *)
   lex ls (print_items its) ln = Ok (TLineNo ln :: items_toks ln its, items_ls ls [] ln its)
   /\ erase_lineno (items_toks ln its) = [].
-Proof. intros its ls ln H. split; [exact (lex_items its ls ln H) | exact (items_toks_layout its ln)]. Qed.
+Proof. intros its ls ln H N. split; [exact (lex_items its ls ln H N) | exact (items_toks_layout its ln)]. Qed.
 
 (* ---- silence: the library's print sites not behind a debug test (census of /repo/src, regenerated) are exactly the
    unreachable "[SYSTEM_ERROR] FUNCTION NOT SET" of read_upper_command and dump_midi's explicit flag_stdout ---- *)
